@@ -5,6 +5,7 @@ mod harness;
 mod hexbytes;
 mod jxlgen;
 mod observe;
+mod pool;
 mod rng;
 mod simio;
 
